@@ -37,7 +37,6 @@ for P in $PROPS; do
   if [ $R -eq 1 ]; then RES="$RES $P=DETECTED($V)"; else RES="$RES $P=missed(exit$R)"; fi
   grep -m2 '^  \[' "$DST/check-$P.txt" | cut -c1-260
 done
-/verif/run.sh build >/dev/null 2>&1
 echo "RESULT $NAME:$RES"
 python3 - "$DST" "$NAME" "$APPLIES" "$BUILD" "$TESTS" "$DEMO_WITHOUT" "$DEMO_WITH" "$RES" <<'PY'
 import json, sys, os
